@@ -73,6 +73,12 @@ theorem C05_conformant (b : Bitmap) (h : Bitmap.WF b) (rest : List Nat) :
     Spec.decode (Bitmap.serialize b ++ rest) = some (Bitmap.elems b, rest) :=
   specDecode_serialize b h.toCodec rest
 
+/-- consequently the reference codec round-trips on the element list of every well-formed value: the two halves
+    of `SpecCodec.lean` (encoder and strict decoder, written independently of the model) agree with each other -/
+theorem C05_spec_roundtrip (b : Bitmap) (h : Bitmap.WF b) (rest : List Nat) :
+    Spec.decode (Spec.encode (Bitmap.elems b) ++ rest) = some (Bitmap.elems b, rest) := by
+  rw [← C05_bytes b h]; exact C05_conformant b h rest
+
 /-- the output is a byte string (every entry `< 256`), for every value -/
 theorem C05_is_bytes (b : Bitmap) : ∀ x ∈ Bitmap.serialize b, x < 256 := serialize_isBytes b
 
